@@ -401,7 +401,11 @@ class Ctx:
         ev = dict(property_id=self.pid, tier=self.tier, seed=self.seed, level=self.level,
                   coverage=cov, assumptions=list(self.assumptions) + list(extra_assumptions),
                   wall_s=round(time.time() - self.t0, 1), violations=len(self.violations))
-        with open(os.path.join(VERIF, 'evidence', self.pid + '.json'), 'w') as f:
+        # evidence/ only ever holds runs against /repo itself; a run against a scratch tree (PNC_REPO, used
+        # to test the checks against seeded changes) is recorded apart
+        evdir = 'evidence' if os.environ.get('PNC_REPO', '/repo').rstrip('/') == '/repo' else 'evidence_mut'
+        os.makedirs(os.path.join(VERIF, evdir), exist_ok=True)
+        with open(os.path.join(VERIF, evdir, self.pid + '.json'), 'w') as f:
             json.dump(ev, f, indent=1)
         print('%s %s: obligations %s/%s, evaluations %d (distinct non-trivial %d), violations %d, known findings %d, %.0fs'
               % (self.pid, self.tier, cov.get('discharged', '-'), cov.get('obligations', '-'),
